@@ -154,7 +154,7 @@ func TestC14_Objects(t *testing.T) {
 	c := harness.New(t, "C14", "objects",
 		fmt.Sprintf("objects with 2..12 keys (literals, data maps, structs, nested) printed with {{ }} and @dump, joined inside arrays, concatenated through str-like functions, iterated programs around them; each case rendered %d times in one process: every result must equal the first byte for byte. Non-trivial: an object with >= 2 keys is printed or dumped (all cases). Distinct by hash.", c14Reps))
 	defer c.Finish()
-	runRapid(t, c, 700, 3000, func(rt *rapid.T) {
+	runRapid(t, c, 700, 9000, func(rt *rapid.T) {
 		var cs detCase
 		cs.Kind = "objects"
 		forms := []string{"{{ %s }}", "@dump(%s)", "{{ [%s, 1] }}", "@each(o in [%s]){{ o }}@end", "{{ x = %s; x }}", "@dump([%s])", "{{ [%s].join('|') }}", "@if(true){{ %s }}@end"}
@@ -178,7 +178,7 @@ func TestC14_MultiFault(t *testing.T) {
 		fmt.Sprintf("string-API templates with several simultaneous faults in one order-sensitive construct: object literals with 2..6 failing entries (different failure kinds, so the messages differ), arrays of such objects, data maps with several entries of unsupported kinds (different Go types) or several reserved/mismatching entries; each rendered %d times: same error (message and line) every time. Non-trivial: all (>= 2 distinct faults). Distinct by hash.", c14Reps))
 	defer c.Finish()
 	faults := []string{"zz1", "zz2", "1 / 0", "1 + 'a'", "nope.x", "5 % 0", "'s'.nosuchfn()", "[1][0].zz", "zz3 + 1"}
-	runRapid(t, c, 700, 3000, func(rt *rapid.T) {
+	runRapid(t, c, 700, 9000, func(rt *rapid.T) {
 		cs := detCase{Kind: "multi-fault"}
 		switch rapid.IntRange(0, 3).Draw(rt, "where") {
 		case 0, 1:
@@ -216,7 +216,7 @@ func TestC14_Trees(t *testing.T) {
 	c := harness.New(t, "C14", "trees",
 		fmt.Sprintf("template directories with several simultaneous faults: pages with 2..4 inserts naming no reserve; component uses with several duplicated or undeclared slots; component arguments with several failing entries; two or three independently faulty files (parse errors on different lines, unknown components, undefined inserts); plus healthy trees printing objects. Each directory is loaded afresh and rendered %d times (reset hook): identical load error / output / render error every time. Non-trivial: all. Distinct by hash.", c14Reps/2))
 	defer c.Finish()
-	runRapid(t, c, 150, 700, func(rt *rapid.T) {
+	runRapid(t, c, 150, 2100, func(rt *rapid.T) {
 		tc := &treeCase{Dir: "t", Ext: ".tw", Page: "page", Files: map[string]string{}}
 		cs := detCase{Kind: "trees", Tree: tc}
 		switch rapid.IntRange(0, 5).Draw(rt, "scenario") {
@@ -302,7 +302,7 @@ func TestC14_Processes(t *testing.T) {
 		return
 	}
 	defer os.RemoveAll(dir)
-	runRapid(t, c, 12, 60, func(rt *rapid.T) {
+	runRapid(t, c, 12, 180, func(rt *rapid.T) {
 		cs := detCase{Kind: "processes"}
 		if rapid.Bool().Draw(rt, "objects") {
 			cs.Src = "{{ " + tw.ExprString(genObjExpr(rt, 1), nil) + " }}@dump(obj)"
